@@ -368,6 +368,11 @@ def run_denial(ctx):
                                   "denied handshake with a streaming response: %d pending task(s), cleanup ran %d time(s)" % (st["pending"], st["closed"]))
                 elif st["sent"] != list(range(1, len(st["sent"]) + 1)):
                     ctx.violation(case, "items in order", st["sent"], "denied handshake with a streaming response: items lost or out of order")
+                elif len(st["sent"]) < min(8, max(0, (disc - 1) // gap)):
+                    # what the producer yielded well before the client went away has been delivered (a stream that ends by itself
+                    # at the first message of the handshake delivers nothing)
+                    ctx.violation(case, "at least %d items before the disconnect" % max(0, (disc - 1) // gap), st["sent"],
+                                  "denied handshake with a streaming response: the stream ended before the client went away (%d items delivered)" % len(st["sent"]))
                 ctx.nontriv(("denial-stream", kind, disc, gap))
 
 
